@@ -229,11 +229,11 @@ def run(pid, tier):
             exh = dict(nb=2, bars=bars, maxh=3, mode='all', emit=40 if quick else 25)
             tie = dict(nb=4, bars=[95, 100, 105, 110], maxh_extra=1 if quick else 2, mode='all', emit=15 if quick else 40)
         elif pid == 'C03':
-            exh = dict(nb=2, bars=[100, 105, 110], maxh=3 if quick else 4, mode='orderly', emit=10 if quick else 40)
+            exh = dict(nb=2, bars=[100, 105] if quick else [100, 105, 110], maxh=3 if quick else 4, mode='orderly', emit=4 if quick else 40)
             tie = dict(nb=4, bars=[95, 100, 105] if quick else [95, 100, 105, 110], maxh_extra=2 if quick else 3,
-                       mode='orderly', emit=10 if quick else 60)
+                       mode='orderly', emit=4 if quick else 60)
         else:
-            exh = dict(nb=2, bars=[100, 105], maxh=3, mode='ok', emit=30) if quick else \
+            exh = dict(nb=2, bars=[100, 105], maxh=2, mode='ok', emit=4) if quick else \
                 dict(nb=2, bars=[100, 105, 110], maxh=3, mode='ok', emit=120)
             tie = dict(nb=4, bars=[95, 100, 105], maxh_extra=1 if quick else 2, mode='ok', emit=20 if quick else 60)
         invs = ['NoBadStep', 'EmitState', 'EmitTaint'] + (['ReplayLogOK', 'RoundTripOKnoJOpass'] if pid == 'C08' else [])
@@ -293,7 +293,7 @@ def run(pid, tier):
         for l in maximal:
             jobs.append(('full', [json.loads(c) for c in l], alpha4 if len(jobs) % 3 == 0 else None, extras))
         n_sim = len(maximal)
-        nscripts = {'C02': 250, 'C03': 600, 'C08': 250}[pid] * (1 if quick else 8)
+        nscripts = {'C02': 180, 'C03': 500, 'C08': 200}[pid] * (1 if quick else 10)
         for i in range(nscripts):
             nb_ = rng.choice([1, 2, 2, 3, 3, 4])
             if i % 3 == 0 and nb_ >= 2:
